@@ -879,6 +879,77 @@ def _resolve_fnptr_calls(F, fn):
             return
 
 
+CRATES = ("laythe_core", "laythe_native", "laythe_env", "laythe_lib", "laythe_vm", "laythe")
+_adt_rename_cache = {}
+
+
+def adt_variant_table(F):
+    return {path: [v["name"] for v in a["variants"]] for path, a in F.adts.items() if a.get("crate", "").startswith("laythe") and a.get("enum")}
+
+
+def detect_adt_renames(d):
+    """{new ADT path: reference ADT path} for the fact directory d: a reference ADT (pinned_fns.json: adt_fields) that
+    is gone and an ADT that is new, in the same module, with the same fields (names and types, the type's own path
+    read as Self) and, for an enum, the same variant names, each the other's only candidate: the same type under a
+    new name. Everything that mentions the new path (functions, impls, places, types) gets the reference path back."""
+    if d in _adt_rename_cache:
+        return _adt_rename_cache[d]
+    out = {}
+    pin = pin_file()
+    pinned = pin.get("adt_fields", {})
+    pvars = pin.get("adt_variants", {})
+    if pinned and not os.environ.get("LAYTHE_NO_INLINE"):
+        cur = {}
+        for crate in CRATES:
+            fp = os.path.join(d, crate + ".json")
+            if not os.path.exists(fp):
+                continue
+            with open(fp) as f:
+                j = json.load(f)
+            for a in j["adts"]:
+                cur[a["path"]] = a
+        missing = [p for p in pinned if p not in cur and p.split("::")[0] in CRATES]
+        newp = [p for p in cur if p not in pinned and p.split("::")[0] in CRATES]
+
+        def norm(path, table):
+            rx = re.compile(re.escape(path) + r"(?![A-Za-z0-9_])")
+            return [[[n, rx.sub("Self", t or "")] for n, t in v] for v in table]
+        cand = {}
+        for p in missing:
+            mod = p.rsplit("::", 1)[0]
+            want = norm(p, pinned[p])
+            cs = []
+            for q in newp:
+                if q.rsplit("::", 1)[0] != mod:
+                    continue
+                a = cur[q]
+                tab = norm(q, [[[f["name"], f["ty"]] for f in v["fields"]] for v in a["variants"]])
+                if tab != want:
+                    continue
+                if a.get("enum"):
+                    if p not in pvars or [v["name"] for v in a["variants"]] != pvars[p]:
+                        continue
+                elif p in pvars:
+                    continue
+                cs.append(q)
+            cand[p] = cs
+        claimed = collections.Counter(q for cs in cand.values() if len(cs) == 1 for q in cs)
+        for p, cs in cand.items():
+            if len(cs) == 1 and claimed[cs[0]] == 1:
+                out[cs[0]] = p
+    _adt_rename_cache[d] = out
+    return out
+
+
+def _rename_paths_in_text(text, ren):
+    for new, old in sorted(ren.items(), key=lambda kv: -len(kv[0])):
+        text = re.sub(re.escape(new) + r"(?![A-Za-z0-9_])", old, text)
+        # a struct's only variant carries the type's name: `Path::Name::Name` in aggregates
+        nn, on = new.rsplit("::", 1)[-1], old.rsplit("::", 1)[-1]
+        text = text.replace(old + "::" + nn + '"', old + "::" + on + '"')
+    return text
+
+
 class Facts:
     def __init__(self, d, cfg):
         self.cfg = cfg
@@ -887,9 +958,18 @@ class Facts:
         self.consts = {}
         self.fns = {}
         self.by_name = collections.defaultdict(list)
-        for crate in ("laythe_core", "laythe_native", "laythe_env", "laythe_lib", "laythe_vm", "laythe"):
+        self.adt_renames = detect_adt_renames(d)
+        for crate in CRATES:
             with open(os.path.join(d, crate + ".json")) as f:
-                j = json.load(f)
+                if self.adt_renames:
+                    j = json.loads(_rename_paths_in_text(f.read(), self.adt_renames))
+                    for a in j["adts"]:
+                        # the single variant of a struct is named after the struct
+                        if not a.get("enum") and a["path"] in self.adt_renames.values():
+                            for v in a["variants"]:
+                                v["name"] = a["path"].rsplit("::", 1)[-1]
+                else:
+                    j = json.load(f)
             for a in j["adts"]:
                 a["crate"] = crate
                 self.adts[a["path"]] = a
@@ -966,8 +1046,22 @@ class Facts:
 class Syn:
     def __init__(self, d):
         self.files = {}
+        idren = {}
+        if not os.environ.get("LAYTHE_NO_INLINE") and pin_file().get("adt_fields"):
+            try:
+                dd, _h = ensure("default")
+                for newp, oldp in detect_adt_renames(dd).items():
+                    nn, on = newp.rsplit("::", 1)[-1], oldp.rsplit("::", 1)[-1]
+                    if nn != on:
+                        idren[nn] = on
+            except ExtractError:
+                idren = {}
+        self.type_renames = idren
         with open(os.path.join(d, "syn.jsonl")) as f:
             for line in f:
+                for nn, on in idren.items():
+                    # the type's identifier wherever it is written (items, impls, paths, types, macro text)
+                    line = re.sub(r"(?<![A-Za-z0-9_])%s(?![A-Za-z0-9_])" % re.escape(nn), on, line)
                 j = json.loads(line)
                 rel = os.path.relpath(j["file"], REPO)
                 self.files[rel] = j
